@@ -15,6 +15,7 @@ from pyvc.engine import (
     ExcV,
     FuncV,
     GlobalV,
+    LazyComp,
     HDict,
     HList,
     OptV,
@@ -65,8 +66,8 @@ def b_len(E, st, node, args, kw):
         f = z3.Function("len_U", U, z3.IntSort())
         st.pc.append(f(x) >= 0)
         return [(st, f(x), None)]
-    if isinstance(x, tuple) and x and x[0] == "__lazycomp__":
-        raise Unsupported("len of filtered comprehension")
+    if isinstance(x, LazyComp):
+        raise Unsupported("len of a comprehension over a symbolic sequence")
     raise Unsupported(f"len of {type(x).__name__}")
 
 
@@ -109,14 +110,14 @@ def b_isinstance(E, st, node, args, kw):
 def b_next(E, st, node, args, kw):
     """next(<generator expression over a symbolic sequence>) = first match"""
     g = args[0]
-    if not (isinstance(g, tuple) and g and g[0] == "__lazycomp__"):
+    if not isinstance(g, LazyComp):
         if isinstance(g, Ref) and isinstance(st.heap[g.n], HList) and st.heap[g.n].seq.items is not None:
             it = st.heap[g.n].seq.items
             if it:
                 return [(st, it[0], None)]
             return [(st, args[1], None)] if len(args) > 1 else [(st, None, ExcV("StopIteration"))]
         raise Unsupported("next() of a non-comprehension iterator")
-    seq = g[3]
+    seq = g.seq
     i = E.fresh("first", z3.IntSort())
     j = E.fresh("j", z3.IntSort())
     cond_i, val_i = E.comp_elem(st, g, i)
@@ -151,9 +152,9 @@ def _quant(E, st, node, args, is_any):
         body = lift(E.truthy(st, seq.get(j)))
         rng = z3.And(j >= 0, j < seq.length)
         return [(st, z3.Exists([j], z3.And(rng, body)) if is_any else z3.ForAll([j], z3.Implies(rng, body)), None)]
-    if not (isinstance(g, tuple) and g and g[0] == "__lazycomp__"):
+    if not isinstance(g, LazyComp):
         raise Unsupported("any/all of non-comprehension")
-    seq = g[3]
+    seq = g.seq
     j = E.fresh("j", z3.IntSort())
     cond, val = E.comp_elem(st, g, j)
     rng = z3.And(j >= 0, j < seq.length, lift(cond))
@@ -175,8 +176,8 @@ def b_list(E, st, node, args, kw):
     if not args:
         return [(st, E.new_list(st, SeqV.concrete([])), None)]
     x = args[0]
-    if isinstance(x, tuple) and x and x[0] == "__lazycomp__":
-        _, cnode, g, seq, env = x
+    if isinstance(x, LazyComp):
+        g, seq = x.g, x.seq
         if g.ifs:
             raise Unsupported("list() of a filtered comprehension over a symbolic sequence")
         return [(st, E.new_list(st, SeqV(seq.length, lambda i: E.comp_elem(st, x, i)[1])), None)]
